@@ -85,6 +85,11 @@ def hostile_nodes():
         nodes.append(("untagged-list:" + t, "!%s [1]" % t))
         nodes.append(("untagged-map:" + t, "!%s {a: 1}" % t))
         nodes.append(("untagged-bare:" + t, "!%s ''" % t))
+    # forbidden tags on scalars whose text looks like something to expand or interpolate
+    for label, text in [("dollar-untagged", "!NoSuchPlugin $HOME/pool.cfg"), ("dollar-name", "!!python/name:os.system ${X}"),
+                        ("dollar-apply-scalar", "!!python/object/apply:os.system \"echo $HOME\""), ("dollar-module", "!!python/module:os $PATH"),
+                        ("percent-untagged", "!NoSuchPlugin '%(name)s'"), ("brace-untagged", "!vcanary.fire '{0} {name}'")]:
+        nodes.append((label, text))
     # unregistered tags of other families: the yaml.org namespace without python/, foreign namespaces (verbatim, or
     # through a %TAG handle), verbatim tags without any prefix
     for label, text in [("yamlorg-widget-map", "!!widget {a: 1}"), ("yamlorg-widget-list", "!!widget [1]"), ("yamlorg-python-no-kind", "!!python ''"),
